@@ -281,6 +281,33 @@ func exScenarios() []exScenario {
 			o.checkAll(r, []string{"e0", "late0", "late1"}, max, 0)
 		}})
 	}
+	// two full batches in transit at the same time (bulk size 1: every Add cuts one), while a
+	// long stretch of time passes in which the flusher gets to see only a tick or two (a
+	// ticker drops ticks nobody receives): the flusher may not retire with a batch still
+	// waiting for it - every Add returns and every task is executed once
+	out = append(out, exScenario{"bulk/max=1/two-batches-in-transit+idle-stretch", func(r *vrt.Run) {
+		o := newExObs()
+		be := NewBulkExecutor(o.execute(false), WithBulkTasks(1), WithBulkInterval(exInterval))
+		var wg sync.WaitGroup
+		wg.Add(3)
+		for _, n := range []string{"a0", "b0"} {
+			n := n
+			go func() {
+				defer wg.Done()
+				o.add(n, func() { be.Add(n) })
+			}()
+		}
+		go func() {
+			defer wg.Done()
+			vrt.Advance((idleRound + 1) * exInterval)
+			vrt.Advance(exInterval)
+			vrt.Advance(exInterval)
+		}()
+		wg.Wait()
+		be.Wait()
+		r.Outcome("%s", o.batchList())
+		o.checkAll(r, []string{"a0", "b0"}, 1, 0)
+	}})
 	// plain periodical executor with a recording container (flush when 2 tasks are cached)
 	out = append(out, exScenario{"periodical/container-threshold=2", func(r *vrt.Run) {
 		o := newExObs()
